@@ -31,6 +31,8 @@ def obligations(tier):
                   bounds="a positioned span with style italics / text-align / text-align+italics / colour x 3 layouts x DFXP and single-position writers x caption-level style and layout: every start tag well-formed (no attribute twice)"))
     obs.append(ch("style_names", "harness.C07_dfxp", timeout=T, functions=("DFXPWriter.write", "_recreate_styling_tag", "RegionCreator._get_new_id"), exhaustive=True,
                   bounds="document style called p / default / r / bottom0 x three writers: ids unique across styles and regions, references resolve"))
+    obs.append(ch("p_style_props", "harness.C07_dfxp", timeout=T, functions=("DFXPWriter.write", "_recreate_styling_tag", "_recreate_p_tag", "dfxp.base._recreate_style"), exhaustive=True,
+                  bounds="document style 'p' with expressible / inexpressible / empty properties x three writers: every style= reference resolves to exactly one definition"))
     obs.append(ch("style_named_like_region", "harness.C07_dfxp", timeout=T, functions=("DFXPWriter.write", "RegionCreator._get_new_id", "create_document_regions"), known="C07-style-id-equals-region-id",
                   bounds="document style called bottom / r0 / r1"))
     obs.append(ch("id_lang_value", "harness.C07_dfxp", timeout=T, functions=("DFXPWriter.write", "_recreate_styling_tag", "_recreate_p_tag", "LegacyDFXPWriter.write"),
